@@ -10,6 +10,7 @@ from __future__ import annotations
 import json
 
 from vlib import core, opskit
+from vlib import translate
 
 RULE = ("as C10 (random populations x operator sequences of length 1-12 x forced completion orders); every observed population / evaluation result is snapshotted at "
         "observation time and compared at the end of the sequence, the argument of every application also right after the call; plus mutation operators applied directly to freshly speciated populations with probabilities at which nobody is drawn; plus a solver-level family (scripted-operator solvers, tiny real EVQE solvers, base-class solvers around the package's speciation/selection): two or three solves on ONE solver object, one on a fresh solver, garbage collection — the first result is snapshotted when returned and compared after each; distinct = distinct spec; non-trivial = at least two executed operators one of which is a speciation (solver family: at least two completed solves)")
@@ -20,6 +21,7 @@ def oracle(tr, report):
 
 
 def run(ctx):
+    translate.check_link(ctx, "C10")  # the C10 tie covers C11: heap-level link of speciation (list(...) copy vs alias), reference copies of selection / mutation
     ctx.rule = RULE
     specs = []
     cdir = core.ROOT / "corpus" / "C11"
@@ -81,6 +83,8 @@ def solver_family(ctx, cases=None):
 
 
 def replay(ctx, payload):
+    if translate.is_link_replay(payload) and not payload.get("failing_input"):
+        return translate.replay(ctx, payload, "C10")
     spec = payload.get("case") or payload.get("failing_input")
     if "solver_case" in spec:
         solver_family(ctx, [spec["solver_case"]])
